@@ -1,0 +1,18 @@
+//go:build verif
+
+// Machine-checked contracts for package signdeb (comment-only; see /verif/DESIGN.md).
+
+package signdeb
+
+//@ func Sign
+//@   property C03 C08
+//@   ghost matched bool = false
+//@   ghost msize int = 0
+//@   ghost mpos int = 68
+//@   on call (*ar.Reader).Next(_) ret (h, e): assume e == nil ==> counter.N >= 68
+//@   on call path.Clean(n) ret (c): msize = ite(c == filename, hdr.Size, msize); mpos = ite(c == filename, counter.N, mpos); matched = matched || c == filename
+//@   before call (*binpatch.PatchSet).Add(_, off, sz, blob): assert @old_signature_member_removed_with_its_padding matched ==> \
+//@        off == mpos - 60 && sz == 60 + msize + msize % 2 && msize >= 0
+//@   before call (*binpatch.PatchSet).Add(_, off, sz, blob): assert @otherwise_the_signature_is_appended !matched ==> off == counter.N && sz == 0
+//@   loop 0 sig "for" invariant (matched ==> patchOffset == mpos - 60 && patchLength == 60 + msize + msize % 2) && (!matched ==> patchOffset == 0 && patchLength == 0) && \
+//@        68 <= mpos && mpos <= 2305843009213693952 && 0 <= msize && msize <= 9999999999
